@@ -36,7 +36,12 @@ def make_text(seed):
     r = random.Random(seed)
     knobs = gen.Knobs(items=r.choice([2, 3, 4]), members=r.choice([3, 5]), ns_depth=r.choice([1, 2]))
     g = gen.WildGen(seed, knobs, typedefs=True, typedef_same_ns=True, param_use=0.3, this_use=0.05, special_names=0.1)
-    return render.render(g.module())
+    text = render.render(g.module())
+    if r.random() < 0.6:
+        # classes marked for serialization (state that the wrapper keeps while wrapping a file)
+        text += 'namespace ser%d {\n  class Keep%d { Keep%d(); void serialize(); };\n  template<T = {int, double}> class Tmpl%d { void serializable(); T get() const; };\n}\n' % (
+            seed % 97, seed % 89, seed % 89, seed % 83)
+    return text
 
 
 def sha_tree(root):
@@ -139,16 +144,32 @@ def check_input(seed, tier, acc, nvar):
         shared = PybindWrapper(module_name='modx', top_module_namespaces=[''], ignore_classes=[],
                                module_template=tool.TPL, use_boost_serialization=r.random() < 0.5)
         ser = shared.use_boost_serialization
-        for t in texts:
+        for ti, t in enumerate(texts):
             a = tool.outcome(tool.pybind_text, t, ('',), (), ser, 'modx', tool.TPL, '', None, shared)
             b = tool.outcome(tool.pybind_text, t, ('',), (), ser, 'modx')
-            acc.count('varied_runs')
+            # reference from a fresh process: state kept in the module / class (not the object) is visible only there
+            tp = os.path.join(root, 'hist%d.i' % ti)
+            open(tp, 'w').write(t)
+            code = ('import sys, hashlib; sys.path.insert(0, %r); sys.path.insert(0, %r); from vlib import tool; '
+                    'r = tool.outcome(tool.pybind_text, open(%r).read(), ("",), (), %r, "modx"); '
+                    'print("REF", r[0], hashlib.sha256(r[1].encode()).hexdigest())' % (VERIF, REPO, tp, ser))
+            pr = subprocess.run([sys.executable, '-c', code], stdout=subprocess.PIPE, stderr=subprocess.PIPE, timeout=600,
+                                env=dict(os.environ, PYTHONPATH=REPO))
+            ref = pr.stdout.decode().strip().split('\n')[-1].split(' ')
+            acc.count('varied_runs', 2)
             acc.count('var:reused_wrapper')
+            acc.count('var:new_wrapper_in_used_process')
             acc.case(hashlib.sha256((t + 'reuse').encode()).hexdigest()[:16], True)
             if a != b:
                 vs.append({'what': 'output of a reused PybindWrapper differs from a fresh one',
                            'reused': str(a)[:200], 'fresh': str(b)[:200]})
                 break
+            if len(ref) == 3 and ref[0] == 'REF':
+                mine = (b[0], hashlib.sha256(b[1].encode()).hexdigest())
+                if (ref[1], ref[2]) != mine:
+                    vs.append({'what': 'a new PybindWrapper in a process that wrapped other files before gives a different '
+                                       'output than a fresh process', 'serialization': ser})
+                    break
         for v in vs:
             v['text'] = text[:2000]
         if seed % 8 == 0:
